@@ -58,15 +58,20 @@ def _check_combo(case, combo):
     tx = combo["tx"][0] / combo["tx"][1]
     ty = combo["ty"][0] / combo["ty"][1]
     ext = bool(combo["extremes"])
-    try:
-        got = _call(kind, P, case, tx, ty, ext)
-    except Exception as ex:
-        return ("completes", {"f": _fn(kind), "tx": tx, "ty": ty, "extremes": ext, "raised": repr(ex)[:200]})
     exp = list(combo["exp"])
-    if got != exp:
-        return (_judge(got, exp, combo["union"], len(P), ext),
-                {"f": _fn(kind), "tx": tx, "ty": ty, "extremes": ext, "got": got, "expected": exp,
-                 "candidate_segments": combo["segs"]})
+    # the grid curves are integral: they are also passed as an int64 array (every 4th combination, to bound the cost)
+    variants = [("float64", P)]
+    if (len(exp) + combo["tx"][1] + combo["ty"][1] + int(ext)) % 4 == 0 and np.all(P == np.floor(P)):
+        variants.append(("int64", P.astype(np.int64)))
+    for dname, Q in variants:
+        try:
+            got = _call(kind, Q, case, tx, ty, ext)
+        except Exception as ex:
+            return ("completes", {"f": _fn(kind), "tx": tx, "ty": ty, "extremes": ext, "dtype": dname, "raised": repr(ex)[:200]})
+        if got != exp:
+            return (_judge(got, exp, combo["union"], len(P), ext),
+                    {"f": _fn(kind), "tx": tx, "ty": ty, "extremes": ext, "dtype": dname, "got": got, "expected": exp,
+                     "candidate_segments": combo["segs"]})
     return None
 
 
